@@ -287,12 +287,12 @@ impl<'a> G<'a> {
         self.d_inc();
         match k {
             0 => { self.pk("%eval"); self.ows(); self.del_mark("(", "LPAREN", "MissingExpectedLParen", false); self.ows(); self.eval_expr(false, false); self.ows_after_expr(); self.mark(")", MK::Delim("RPAREN", false)); }
-            1 => { self.feat("sysevalf"); self.pk("%sysevalf"); self.ows(); self.del_mark("(", "LPAREN", "MissingExpectedLParen", false); self.ows(); self.eval_expr(true, false); if self.u.coin(1, 3) { self.mark(",", MK::Delim("COMMA", false)); self.ows(); self.p("boolean"); } self.mark(")", MK::Delim("RPAREN", false)); }
-            2 => { self.feat("scan"); let nm = self.pick(&["%scan", "%qscan", "%SCAN", "%kscan", "%qkscan", "%QKScan"]); self.p(nm); self.ows(); self.del_mark("(", "LPAREN", "MissingExpectedLParen", false); self.ows(); self.bvalue(); let close_anchor_needed = self.out.len(); let _ = close_anchor_needed; let di = self.dels.len(); self.del_mark(",", "COMMA", "MissingExpectedComma", false); self.ows(); self.eval_expr(false, true); if self.u.coin(1, 2) { self.mark(",", MK::Delim("COMMA", false)); self.ows(); if self.u.coin(1, 2) { self.p("|"); self.mark("(", MK::Masked); self.p(" "); self.mark(")", MK::Masked); } else { self.bvalue(); } if self.u.coin(1, 2) { self.feat("scan-modifiers"); self.mark(",", MK::Delim("COMMA", false)); self.ows(); if self.u.coin(1, 2) { self.p("m"); } else { self.bvalue(); } } self.dels.remove(di); } else { let a = self.anchor(); self.dels[di].at_mark = Some(a); } self.mark(")", MK::Delim("RPAREN", false)); }
-            3 => { self.feat("substr"); let nm = self.pick(&["%substr", "%qsubstr", "%ksubstr", "%qksubstr", "%SUBSTR", "%QKsubstr"]); self.p(nm); self.ows(); self.del_mark("(", "LPAREN", "MissingExpectedLParen", false); self.ows(); self.bvalue(); let di = self.dels.len(); self.del_mark(",", "COMMA", "MissingExpectedComma", false); self.ows(); self.eval_expr(false, true); if self.u.coin(1, 2) { self.mark(",", MK::Delim("COMMA", false)); self.ows(); self.eval_expr(false, true); self.dels.remove(di); } else { let a = self.anchor(); self.dels[di].at_mark = Some(a); } self.mark(")", MK::Delim("RPAREN", false)); }
+            1 => { self.feat("sysevalf"); self.pk("%sysevalf"); self.ows(); self.del_mark("(", "LPAREN", "MissingExpectedLParen", false); self.ows(); self.eval_expr(true, false); if self.u.coin(1, 3) { self.gap_after_expr(); self.mark(",", MK::Delim("COMMA", false)); self.ows(); self.p("boolean"); } self.mark(")", MK::Delim("RPAREN", false)); }
+            2 => { self.feat("scan"); let nm = self.pick(&["%scan", "%qscan", "%SCAN", "%kscan", "%qkscan", "%QKScan"]); self.p(nm); self.ows(); self.del_mark("(", "LPAREN", "MissingExpectedLParen", false); self.ows(); self.bvalue(); let close_anchor_needed = self.out.len(); let _ = close_anchor_needed; let di = self.dels.len(); self.del_mark(",", "COMMA", "MissingExpectedComma", false); self.ows(); self.eval_expr(false, true); if self.u.coin(1, 2) { self.gap_after_expr(); self.mark(",", MK::Delim("COMMA", false)); self.ows(); if self.u.coin(1, 2) { self.p("|"); self.mark("(", MK::Masked); self.p(" "); self.mark(")", MK::Masked); } else { self.bvalue(); } if self.u.coin(1, 2) { self.feat("scan-modifiers"); self.mark(",", MK::Delim("COMMA", false)); self.ows(); if self.u.coin(1, 2) { self.p("m"); } else { self.bvalue(); } } self.dels.remove(di); } else { let a = self.anchor(); self.dels[di].at_mark = Some(a); } self.mark(")", MK::Delim("RPAREN", false)); }
+            3 => { self.feat("substr"); let nm = self.pick(&["%substr", "%qsubstr", "%ksubstr", "%qksubstr", "%SUBSTR", "%QKsubstr"]); self.p(nm); self.ows(); self.del_mark("(", "LPAREN", "MissingExpectedLParen", false); self.ows(); self.bvalue(); let di = self.dels.len(); self.del_mark(",", "COMMA", "MissingExpectedComma", false); self.ows(); self.eval_expr(false, true); if self.u.coin(1, 2) { self.gap_after_expr(); self.mark(",", MK::Delim("COMMA", false)); self.ows(); self.eval_expr(false, true); self.dels.remove(di); } else { let a = self.anchor(); self.dels[di].at_mark = Some(a); } self.mark(")", MK::Delim("RPAREN", false)); }
             4 => { self.feat("one-arg-masking"); let nm = self.pick(&["%upcase", "%length", "%index", "%quote", "%bquote", "%nrbquote", "%superq", "%unquote", "%symexist", "%sysget", "%qupcase", "%qlowcase", "%nrquote", "%kupcase", "%klength", "%kindex", "%qkupcase", "%qklowcase", "%sysmexecname", "%sysprod", "%symglobl", "%symlocal", "%sysmacexec", "%sysmacexist", "%UPCASE", "%Length"]); self.p(nm); self.ows(); self.del_mark("(", "LPAREN", "MissingExpectedLParen", false); self.ows(); self.simple_value(); if self.u.coin(1, 2) { self.mark(",", MK::Masked); self.p("t"); } self.mark(")", MK::Delim("RPAREN", false)); }
             5 => { self.feat("multi-arg-builtin"); let nm = self.pick(&["%cmpres", "%left", "%trim", "%lowcase", "%qtrim", "%datatyp", "%qcmpres", "%kcmpres", "%qkcmpres", "%qleft", "%kleft", "%qkleft", "%ktrim", "%qktrim", "%klowcase", "%Trim"]); self.p(nm); self.ows(); self.del_mark("(", "LPAREN", "MissingExpectedLParen", false); self.ows(); self.bvalue(); let extra = self.u.below(3); for _ in 0..extra { self.mark(",", MK::Delim("COMMA", false)); self.ows(); self.bvalue(); } self.mark(")", MK::Delim("RPAREN", false)); }
-            6 => { self.feat("sysfunc"); let nm = self.pick(&["%sysfunc", "%qsysfunc", "%SysFunc"]); self.p(nm); self.ows(); self.del_mark("(", "LPAREN", "MissingExpectedLParen", false); self.ows(); let f = self.pick(&["cats", "putn", "max", "today", "substr"]); self.p(f); self.ows(); self.del_mark("(", "LPAREN", "MissingExpectedLParen", false); self.ows(); let n = self.u.below(3); for i in 0..n { if i > 0 { self.mark(",", MK::Delim("COMMA", false)); self.ows(); } self.eval_expr(true, true); } self.mark(")", MK::Delim("RPAREN", false)); self.ows(); if self.u.coin(1, 3) { self.mark(",", MK::Delim("COMMA", false)); self.ows(); self.p("best12."); } self.mark(")", MK::Delim("RPAREN", false)); }
+            6 => { self.feat("sysfunc"); let nm = self.pick(&["%sysfunc", "%qsysfunc", "%SysFunc"]); self.p(nm); self.ows(); self.del_mark("(", "LPAREN", "MissingExpectedLParen", false); self.ows(); let f = self.pick(&["cats", "putn", "max", "today", "substr"]); self.p(f); self.ows(); self.del_mark("(", "LPAREN", "MissingExpectedLParen", false); self.ows(); let n = self.u.below(3); for i in 0..n { if i > 0 { self.gap_after_expr(); self.mark(",", MK::Delim("COMMA", false)); self.ows(); } self.eval_expr(true, true); } self.mark(")", MK::Delim("RPAREN", false)); self.ows(); if self.u.coin(1, 3) { self.mark(",", MK::Delim("COMMA", false)); self.ows(); self.p("best12."); } self.mark(")", MK::Delim("RPAREN", false)); }
             7 | 8 => { self.str_call(); }
             9 => { self.feat("verify-named"); let nm = self.pick(&["%verify", "%kverify", "%verify", "%VERIFY", "%compstor", "%validchs"]); self.p(nm); self.ows(); self.del_mark("(", "LPAREN", "MissingExpectedLParen", false); self.ows(); if self.u.coin(1, 3) { self.feat("builtin-named-arg"); self.p("pathname"); self.ows(); self.mark("=", MK::Delim("ASSIGN", false)); self.ows(); } self.simple_value(); self.mark(",", MK::Delim("COMMA", false)); self.ows(); self.simple_value(); self.mark(")", MK::Delim("RPAREN", false)); }
             10 => { self.p("%sysmexecdepth "); }
